@@ -174,6 +174,8 @@ def work(arg):
     for it in items:
         if kind == "expr":
             run_grammar(gramgen.grammar_for(it), L_, cap, u, "expr", usefile=False)
+        elif kind == "nested":
+            run_grammar(it, L_, cap, u, "nested-lists", usefile=False)
         elif kind == "rules":
             run_grammar(it[1], 3, cap, u, "rules", usefile=False, cfgs=({}, {"ws": " \r\n"}))
         else:
@@ -190,6 +192,19 @@ TREE_GRAMMAR = [
     ("Leaf", {}, ("seq", (("lit", "l"), ("asg", "name", "=", ("ref", "ID"), None, False),
                           ("opt", ("seq", (("lit", ":"), ("asg", "val", "=", ("ref", "INT"), None, False))))))),
 ]
+
+
+# nested separated lists: the inner list ends its rule and uses the separator of the enclosing list (string and regex separators, + and *)
+def nested_list_grammars():
+    A = gramgen.A_
+    L, RE, REF, SEQ, ALT = gramgen.L, gramgen.RE, gramgen.REF, gramgen.SEQ, gramgen.ALT
+    cell = ("Cell", {}, A("v", "=", REF("INT")))
+    for op in ("+=", "*="):
+        for sep in (L(","), RE(",|;")):
+            yield [("M", {}, A("rows", "+=", REF("Row"), sep)), ("Row", {}, SEQ(L("r"), A("cells", op, REF("Cell"), sep))), cell]
+            yield [("M", {}, A("rows", "+=", REF("Row"), sep)), ("Row", {}, SEQ(L("r"), A("cells", op, REF("Cell"), sep), gramgen.OPT(L("e")) if hasattr(gramgen, "OPT") else L("r"))), cell]
+    yield [("M", {}, A("xs", "+=", REF("X"))), ("X", {}, ALT(REF("Call"), REF("Sep"))), ("Call", {}, SEQ(L("c"), A("args", "*=", REF("Cell"), RE(",|;")))),
+           ("Sep", {}, SEQ(L(","), A("name", "=", REF("ID")))), cell]
 
 
 def tree_inputs(tier):
@@ -216,6 +231,9 @@ def run(ctx):
         fr = fr[::4]
     counts["rules"] = len(fr)
     units += [("rules", ctx.tier, 3, 40, fr[i:i + 8]) for i in range(0, len(fr), 8)]
+    nl = list(nested_list_grammars())
+    counts["nested-lists"] = len(nl)
+    units += [("nested", ctx.tier, 5 if ctx.tier == "quick" else 6, 4000 if ctx.tier == "quick" else 20000, [g]) for g in nl]
     ctx.pmap(work, units)
     # the tree family: explicit token lists as inputs
     ti = tree_inputs(ctx.tier)
